@@ -30,6 +30,10 @@
         chunk_codons_single_exon_frame0       the same for a single-exon CDS with start frame 0 (frame 1 / 2: F-C05a)
         chunk_branch_scans_inner_codons       the core: lift down, lift back, `_calculate_frame_offset`, scan — on any
                                               prepared ascending location (the cleaned location or the single exon)
+        chunk_window_codons_are_the_inner_codons, chunk_window_codons_single_exon_frame0
+                                              `scan_chunk_relative_codon_locations(lo, hi)`: a codon window on top of
+                                              the chunk yields the codons inside BOTH (code after d8ca372, which
+                                              repaired F-C07d: the 5' distance is measured on the whole cleaned location)
     T4  no_base_in_chunk_gives_empty_location an interval without a base in the chunk gets the empty location
         base_in_chunk_gives_location          … and only then
 
@@ -38,6 +42,7 @@
   over collection trees, and the identifier flags of collections (F-C07a).
 -/
 import BioCantor.Proofs.ChunkMain
+import BioCantor.Proofs.ChunkWindow
 import BioCantor.Props.C05
 namespace BioCantor.Props.C07
 open BioCantor BioCantor.Spec BioCantor.Spec.Chunk BioCantor.Model BioCantor.Model.Chunk BioCantor.Proofs
@@ -151,6 +156,30 @@ theorem chunk_branch_scans_inner_codons (k : ChunkCDS) (L : List Blk)
         ((triples (bases ⟨L, k.base.strand⟩)).filter (fun t => t.all (inW k.chunk.w.1 k.chunk.w.2))) ms = true :=
   chunk_core k L hst hL2 hL3 hL4 hw hwl hsome
 
+/-- **T3 + C05-T5** a codon window `[lo, hi)` (lo < hi, inside the chromosome letters if there are any) on a
+    chunk-built multi-exon CDS: `scan_chunk_relative_codon_locations(lo, hi)`, lifted back position by position, are
+    exactly the codons of the whole CDS lying inside the window AND inside the chunk — whichever of the two cuts the
+    5' end, the frame is kept (F-C07d, repaired by d8ca372; the model mirrors the repaired code). -/
+theorem chunk_window_codons_are_the_inner_codons (k : ChunkCDS) (h : WFChunk k)
+    (hmulti : k.base.loc.blocks.length > 1)
+    (hshallow : shallowTrim (exonWalk k.base.loc (specFrames k.base)) = true)
+    (lo hi : Nat) (hlh : lo < hi) (hseq : ∀ s, k.base.seq = some s → hi ≤ s.length)
+    (hsome : (cdsKept k.base.loc (specFrames k.base)).filter
+      (fun p => inW lo hi p && inW k.chunk.w.1 k.chunk.w.2 p) ≠ []) :
+    okChunkWindowCodons (descOf k) (winOf k) lo hi
+      (ans (scanChunkRelativeCodonLocations k (lo : Int) (hi : Int))) = true :=
+  chunkWindowCodons_multi k h hmulti hshallow lo hi hlh hseq hsome
+
+/-- … and on a single-exon CDS with start frame 0 (frame 1 / 2: F-C05a) -/
+theorem chunk_window_codons_single_exon_frame0 (k : ChunkCDS) (h : WFChunk k) (e : Blk)
+    (hone : k.base.loc.blocks = [e]) (hf : k.base.frames = [.ZERO]) (lo hi : Nat) (hlh : lo < hi)
+    (hseq : ∀ s, k.base.seq = some s → hi ≤ s.length)
+    (hsome : (cdsKept k.base.loc (specFrames k.base)).filter
+      (fun p => inW lo hi p && inW k.chunk.w.1 k.chunk.w.2 p) ≠ []) :
+    okChunkWindowCodons (descOf k) (winOf k) lo hi
+      (ans (scanChunkRelativeCodonLocations k (lo : Int) (hi : Int))) = true :=
+  chunkWindowCodons_single k h e hone hf lo hi hlh hseq hsome
+
 /-! ### non-vacuity: concrete inputs satisfying the hypotheses
 
   (`List.mergeSort` does not reduce in the kernel, so facts about sorted multi-block lists are shown through the
@@ -182,6 +211,15 @@ example : cdsCodons exampleChunkCDS.base.loc (specFrames exampleChunkCDS.base) =
 example : okChunkCodons (descOf exampleChunkCDS) (winOf exampleChunkCDS)
     (ans (chunkRelativeCodonLocations exampleChunkCDS)) = true :=
   chunk_codons_are_the_inner_codons exampleChunkCDS exampleChunkCDS_wf (by decide) (by decide) (by decide)
+
+-- a codon window [4, 17) on top of the chunk [3, 18): the hypotheses hold (a chunk-built CDS carries no chromosome
+-- letters: `hseq` is vacuous), and the windowed theorem applies
+example : (cdsKept exampleChunkCDS.base.loc (specFrames exampleChunkCDS.base)).filter
+    (fun p => inW 4 17 p && inW 3 18 p) ≠ [] ∧ exampleChunkCDS.base.seq = none := by decide
+example : okChunkWindowCodons (descOf exampleChunkCDS) (winOf exampleChunkCDS) 4 17
+    (ans (scanChunkRelativeCodonLocations exampleChunkCDS 4 17)) = true :=
+  chunk_window_codons_are_the_inner_codons exampleChunkCDS exampleChunkCDS_wf (by decide) (by decide) 4 17
+    (by decide) (by intro s hs; cases hs) (by decide)
 
 /-- a single-exon CDS with start frame 0 on a chunk that cuts its 5' end -/
 def plainChunkCDS : ChunkCDS :=
@@ -220,6 +258,9 @@ example : (ans (mkWholeCDS ⟨.minus, [((2, 7), 1)]⟩ "ACGTACGT".toList)).isSom
       okChunkProtein letters x win (ans (translateChunk k))        translate()        = their standard-code translation
     (`extractSequenceChunk` reads `prepareChunk`, i.e. the location and offset of `chunk_branch_scans_inner_codons`;
     what is missing is the letter-level reading of a chunk-relative location against reverse-complemented letters.)
+
+  Codon windows with `expand_window_to_partial_codons` or a `None` bound on a chunk-built CDS: not modelled here
+    (C05 covers them on the chromosome; findings F-C05f/g).
 
   Chunk-relative frames: for a CDS in one uninterrupted reading frame (`oneFrame`) whose 5'-most in-chunk block holds
     the offset,  okChunkFrames x win (ans (chunkRelativeFrames k))  (F-C05h otherwise).  Modelled, compared on every run.
@@ -269,6 +310,22 @@ example : WFChunk slicedOutCDS := by
   constructor <;> simp [slicedOutCDS, C05.plainCDS] <;> decide
 example : ans (chunkRelativeCodonLocations slicedOutCDS) = some [.single (1, 4) .plus] := by decide +kernel
 example : innerCodons (descOf slicedOutCDS) (winOf slicedOutCDS) = [] := by decide +kernel
+
+/-- F-C07d (repaired, d8ca372) as a regression: one exon [1,11) +, frame 0, chunk [1,11), codon window [2,11): the
+    window cuts one base at the 5' end; the model of the repaired code keeps the frame (chromosome codons 4-7, 7-10;
+    before the repair it answered with the out-of-frame triples 2-5, 5-8, 8-11) -/
+def windowedChunkCDS : ChunkCDS :=
+  ⟨{ loc := ⟨[(1, 11)], .plus⟩, start := 1, «end» := 11, frames := [.ZERO], seq := none },
+   .single (0, 10) .plus, ⟨(1, 11), .plus, []⟩⟩
+example : ans (scanChunkRelativeCodonLocations windowedChunkCDS 2 11) =
+    some [.single (3, 6) .plus, .single (6, 9) .plus] := by decide +kernel
+example : innerWindowCodons (descOf windowedChunkCDS) (winOf windowedChunkCDS) 2 11 = [[4, 5, 6], [7, 8, 9]] := by
+  decide +kernel
+example : WFChunk windowedChunkCDS ∧ windowedChunkCDS.base.loc.blocks = [(1, 11)] ∧
+    (cdsKept windowedChunkCDS.base.loc (specFrames windowedChunkCDS.base)).filter
+      (fun p => inW 2 11 p && inW 1 11 p) ≠ [] := by
+  refine ⟨⟨?_, Or.inl rfl, by decide, by decide +kernel⟩, rfl, by decide +kernel⟩
+  constructor <;> simp [windowedChunkCDS] <;> decide
 
 /-- F-C07a: the digest of a gene reads the chunk-relative location: gene [1,10) (one transcript) on chunk [2,9) -/
 example : ans (do
